@@ -110,7 +110,8 @@ func runC20(c *Ctx) {
 			cpop = call.(*ssa.Call)
 		}
 		n = 0
-		for _, a := range storesTo(pop, bytesF) {
+		for _, d := range deepStoresTo(pop, bytesF) {
+			a := fieldAccess{Instr: d.Site, Val: d.Store.Val}
 			n++
 			bo, ok := stripConv(a.Val).(*ssa.BinOp)
 			good := ok && bo.Op == token.SUB && loadOfField(bo.X, bytesF) && isLengthOf(bo.Y)
@@ -345,8 +346,10 @@ func runC20(c *Ctx) {
 	{
 		pop := sm("Pop")
 		var off *ssa.Call
-		for _, call := range callsToFn(pop, om("Offset")) {
-			off = call.(*ssa.Call)
+		var offSite ssa.Instruction
+		var offDC deepCall
+		for _, dc := range deepCallsTo(pop, om("Offset")) {
+			off, offSite, offDC = dc.Call, dc.Site, dc
 		}
 		var cpop *ssa.Call
 		for _, call := range callsToFn(pop, cm("Pop")) {
@@ -357,13 +360,13 @@ func runC20(c *Ctx) {
 		if good {
 			okv := extractOf(cpop, 1)
 			guarded := false
-			for _, l := range guardsOf(off.Block()) {
+			for _, l := range guardsOf(offSite.Block()) {
 				if stripConv(l.Cond) == okv && l.Pos {
 					guarded = true
 				}
 			}
-			// argument is the popped slot
-			argOK := resolveThroughLocal(off.Call.Args[1]) == extractOf(cpop, 0)
+			// argument is the popped slot (handed on to the helper that offsets it, if any)
+			argOK := resolveThroughLocal(offDC.translate(resolveThroughLocal(off.Call.Args[1]))) == extractOf(cpop, 0)
 			// the returned slot on the ok path is the offset result: either the value itself, or the local slot variable
 			// into which the offset result is stored on the ok path
 			retOK := false
@@ -371,6 +374,16 @@ func runC20(c *Ctx) {
 				for _, leaf := range phiLeaves(r.Results[0]) {
 					if resolveThroughLocal(leaf) == ssa.Value(off) {
 						retOK = true
+					}
+					// the helper that offsets the slot returns it, and Pop returns the helper's result
+					if hc, ok := resolveThroughLocal(leaf).(*ssa.Call); ok && ssa.Instruction(hc) == offSite && off.Parent() != pop {
+						for _, hr := range returnsOf(off.Parent()) {
+							for _, hl := range phiLeaves(hr.Results[0]) {
+								if resolveThroughLocal(hl) == ssa.Value(off) {
+									retOK = true
+								}
+							}
+						}
 					}
 					if u, ok := stripConv(leaf).(*ssa.UnOp); ok && u.Op == token.MUL {
 						if cell, ok := u.X.(*ssa.Alloc); ok {
